@@ -92,11 +92,21 @@ Theorem C06_msg_branch_refuted :
 Proof. exact msg_branch_unchecked. Qed.
 Print Assumptions C06_msg_branch_refuted.
 
-(* Every call site that reaches that branch is either one of the reviewed sites or a message maker
-   of ircmsgs.py forwarding its own msg= parameter (regenerated inventory). *)
+(* IrcMsg(msg=m) with no other argument is a pure copy: same prefix, command, args and tags,
+   so it serialises to one line exactly when m does, and keeps the constructor invariant. *)
+Theorem C06_ctor_copy :
+  forall m, copy_msg m = m /\ (one_line (serialize (copy_msg m)) <-> one_line (serialize m))
+            /\ wf_outb (copy_msg m) = wf_outb m.
+Proof. intro m. split; [apply ctor_copy|]. split; [apply ctor_copy_line|apply ctor_copy_wf]. Qed.
+Print Assumptions C06_ctor_copy.
+
+(* Every call site that reaches the msg= branch is one of the reviewed sites, a message maker of
+   ircmsgs.py forwarding its own msg= parameter, or a pure copy (kind 2: IrcMsg(msg=m) alone,
+   covered by C06_ctor_copy) -- regenerated inventory. *)
 Theorem C06_inventory :
   forall s, In s gen.T06.MSGCTOR_SITES ->
   In s reviewed_external \/
-  (s_file s = "src/ircmsgs.py"%string /\ s_kind s = 0%N /\ In (s_func s) gen.T06.MAKERS_WITH_MSG).
+  (s_file s = "src/ircmsgs.py"%string /\ s_kind s = 0%N /\ In (s_func s) gen.T06.MAKERS_WITH_MSG) \/
+  s_kind s = 2%N.
 Proof. exact inventory. Qed.
 Print Assumptions C06_inventory.
